@@ -40,6 +40,12 @@ def succ_of(t, base=("param", 1, "self")):
     `if p == L - 1 { 0 } else { p + 1 }` in any spelling, written out, in a helper storing through `&mut pos`, or in a free function)"""
     if t[0] == "call" and t[1] == "ring::succ" and is_ring_len(t[2][1], base):
         return t[2][0]
+    # the masked spelling `(p + 1) & (L - 1)`: L is 1 << bits_quotient (R11-alloc-terms), so the mask is the modulus
+    if t[0] == "op" and t[1] == "BitAnd" and len(t[2]) == 2:
+        for u, v in (t[2], t[2][::-1]):
+            if v[0] == "op" and v[1] == "Sub" and len(v[2]) == 2 and v[2][1] == const(1) and is_ring_len(v[2][0], base) \
+                    and u[0] == "op" and u[1] == "Add" and len(u[2]) == 2 and const(1) in u[2] and u[2] != (const(1), const(1)):
+                return [y for y in u[2] if y != const(1)][0]
     # the modular spelling `(p + 1) % L` — the same function for every slot index p < L, which is all a cursor ever holds
     if t[0] == "op" and t[1] == "Rem" and len(t[2]) == 2 and is_ring_len(t[2][1], base):
         a = t[2][0]
@@ -51,6 +57,12 @@ def succ_of(t, base=("param", 1, "self")):
 def pred_of(t, base=("param", 1, "self")):
     if t[0] == "call" and t[1] == "ring::pred" and is_ring_len(t[2][1], base):
         return t[2][0]
+    # `p.wrapping_sub(1) & (L - 1)` (L a power of two)
+    if t[0] == "op" and t[1] == "BitAnd" and len(t[2]) == 2:
+        for u, v in (t[2], t[2][::-1]):
+            if v[0] == "op" and v[1] == "Sub" and len(v[2]) == 2 and v[2][1] == const(1) and is_ring_len(v[2][0], base) \
+                    and u[0] == "op" and u[1] == "wrapping_sub" and len(u[2]) == 2 and u[2][1] == const(1):
+                return u[2][0]
     # `(p + L - 1) % L`
     if t[0] == "op" and t[1] == "Rem" and len(t[2]) == 2 and is_ring_len(t[2][1], base):
         from ..terms import linear
@@ -557,6 +569,32 @@ def split_rules(ctx):
                     okr = True
                 else:
                     why = "the dropped part is %s, expected 0 | (hash >> (q+r)) << (q+r)" % fmt(T)[:200]
+    mask_form_ok = False
+    if not okr and r[0] == "tuple" and len(r[1]) == 2:
+        # the same split written with masks: clean = if q + r < 64 { h & ((1 << (q + r)) - 1) } else { h },
+        # quotient = clean >> r, remainder = clean & ((1 << r) - 1)
+        from ..terms import PHI_GUARD
+        Q, R = r[1]
+        low = lambda bits_: mk("Sub", mk("Shl", const(1), bits_), const(1))
+        if Q[0] == "op" and Q[1] == "Shr" and Q[2][1] == br and R[0] == "op" and R[1] == "BitAnd" and set(map(repr, R[2])) == {repr(Q[2][0]), repr(low(br))}:
+            clean = Q[2][0]
+            g = PHI_GUARD.get(repr(clean)) if clean[0] == "phi" else None
+            if g is not None:
+                c_, a_t, a_f = g
+                masked, plain = (a_t, a_f) if a_t != h else (a_f, a_t)
+                mk_ok = plain == h and masked[0] == "op" and masked[1] == "BitAnd" and len(masked[2]) == 2 and h in masked[2]
+                if mk_ok:
+                    m_ = [x for x in masked[2] if x != h][0]
+                    mk_ok = m_[0] == "op" and m_[1] == "Sub" and m_[2][1] == const(1) and m_[2][0][0] == "op" and m_[2][0][1] == "Shl" and m_[2][0][2][0] == const(1) \
+                        and linear_eq(m_[2][0][2][1], used)
+                # the masked value is taken exactly when some bits are dropped (q + r < 64)
+                sel = None
+                if mk_ok and c_[0] == "op" and len(c_[2]) == 2:
+                    sel = says_no_trash_for_mask(c_, masked is a_t, used, bt)
+                if mk_ok and sel:
+                    okr = mask_form_ok = True
+                else:
+                    why = "the masked split keeps %s under %s; expected h & ((1 << (q+r)) - 1) exactly when q + r < 64" % (fmt(clean)[:160], fmt(c_)[:80])
     ctx.check(okr, "R13-split", f.key, f, "quotient = clean >> bits_remainder, remainder = clean - (quotient << bits_remainder), clean = hash without its top 64-q-r bits",
               "calc_quotient_remainder returns %s" % why)
     # the trash branch: 0 exactly when bits_trash == 0
@@ -601,7 +639,28 @@ def split_rules(ctx):
                 zero_when = True if a_t == const(0) else False
                 if says_no_trash(c, zero_when) is True:
                     oks = True
+    oks = oks or mask_form_ok
     ctx.check(oks, "R13-split", f.key + ":no-trash", f, "no bits are dropped exactly when q + r == 64", "the `bits_trash > 0` case split is missing or inverted")
+
+
+def says_no_trash_for_mask(c, masked_when_true, used, bt):
+    """the test c selects the masked value (when true iff masked_when_true) exactly when bits are dropped, i.e. q + r < 64"""
+    from ..terms import linear_eq
+    a, b = c[2]
+    drops_when_true = None
+    if c[1] == "Lt" and b == const(64) and linear_eq(a, used):
+        drops_when_true = True            # q + r < 64
+    elif c[1] == "Le" and a == const(64) and linear_eq(b, used):
+        drops_when_true = False           # 64 <= q + r
+    elif c[1] in ("Eq", "Ne") and const(64) in (a, b) and linear_eq(b if a == const(64) else a, used):
+        drops_when_true = (c[1] == "Ne")
+    elif c[1] == "Lt" and a == const(0) and linear_eq(b, bt):
+        drops_when_true = True            # 0 < 64 - q - r
+    elif c[1] in ("Eq", "Ne") and const(0) in (a, b) and linear_eq(b if a == const(0) else a, bt):
+        drops_when_true = (c[1] == "Ne")
+    if drops_when_true is None:
+        return False
+    return drops_when_true == masked_when_true
 
 
 def scan_rules(ctx):
